@@ -372,9 +372,24 @@ def decide(prop, tier, seed, jobs, meta, extra_results=None):
                     for nm in gen.log.uncontracted_new:
                         if re.search(r'\b%s\s*\(' % re.escape(nm), body):
                             helper = nm
+                if not helper and f.fn:
+                    # same principle for closures: Verus gives a closure without requires/ensures no contract at all, so code that
+                    # passes a value through an unannotated closure (e.g. `x.map(|v| v)` added by a refactoring) cannot be decided
+                    lines_ = gen.text.split('\n')
+                    for ln in range(f.fn['start_line'], f.fn['end_line'] + 1):
+                        o = gen.linemap[ln - 1][0]
+                        if not o or o.startswith('C:'):
+                            continue
+                        code = re.sub(r'/\*@[^*]*\*/', '', lines_[ln - 1]).split('//')[0]
+                        cm = re.search(r'(?<![|&\w])(?:move\s+)?\|\s*((?:(?:mut\s+)?\w+\s*(?::\s*[^,|]+)?\s*,?\s*)*)\|(?!\|)', code)
+                        if cm and not re.search(r'\b(forall|exists|choose)\s*$', code[:cm.start()]):
+                            nxt = ' '.join(lines_[ln - 1:ln + 3])
+                            if not re.search(r'\b(requires|ensures)\b', nxt):
+                                helper = 'closure at %s' % origin_str(o)
+                                break
                 if helper:
-                    tool_problems.append('%s: %s fails an obligation but calls `%s`, a function without contract that could not be inlined '
-                                         '(R-inline): undecided, not a violation' % (job.name, f.fn_key, helper))
+                    tool_problems.append('%s: %s fails an obligation but depends on `%s`, a function/closure without contract (added since the '
+                                         'contracts were written; R-inline could not replace it by its body): undecided, not a violation' % (job.name, f.fn_key, helper))
                     continue
                 if not f.tags:
                     tool_problems.append('%s: failed obligation without property attribution: %s at generated line %s (%s)'
